@@ -348,10 +348,13 @@ func c17Decoder(c *core.Ctx, r *core.Report, unm *ssa.Function) {
 	rs.report(c, r, unm, func(string) string { return "C17.R4" }, cons, unmarshallRows)
 }
 
-func c17SetValue(c *core.Ctx, r *core.Report) {
+func c17SetValue(c *core.Ctx, r *core.Report) { setValueRules(c, r, "C17.R5") }
+
+// setValueRules: the SetValue decision table, reported under rule.
+func setValueRules(c *core.Ctx, r *core.Report, rule string) {
 	sv := c.Func("util/reflectx", "SetValue")
 	if sv == nil {
-		r.Undecided("C17.R5", "role:SetValue", "", "reflectx.SetValue not found")
+		r.Undecided(rule, "role:SetValue", "", "reflectx.SetValue not found")
 		return
 	}
 	bad := ""
@@ -429,5 +432,5 @@ func c17SetValue(c *core.Ctx, r *core.Report) {
 		}
 	}
 	_ = types.Typ
-	r.Check(bad == "", "C17.R5", "SetValue@"+core.FnName(sv), c.FnPos(sv), fmt.Sprintf("SetValue lets the setter fill a fresh value of the field's (element) type and stores exactly that, nothing on error (%d abstract runs) %s", runs, bad))
+	r.Check(bad == "", rule, "SetValue@"+core.FnName(sv), c.FnPos(sv), fmt.Sprintf("SetValue lets the setter fill a fresh value of the field's (element) type and stores exactly that, nothing on error (%d abstract runs) %s", runs, bad))
 }
